@@ -1,8 +1,8 @@
 """C11 — see DESIGN.md §7."""
 from ._write_common import run_common
+from ..core import modules_for
 
 
 def run(ctx):
     q = ctx.tier == "quick"
-    run_common(ctx, "C11", ["SfProps.C11", "SfProps.C04Caf", "SfProps.C04W64", "SfProps.C04Aiff", "SfProps.C04Wavex", "SfProps.C04Rf64"], stride=2 if q else 1, l1_scripts=250 if q else 2500)
-    run_common(ctx, "C11", ["SfProps.C11", "SfProps.C04Caf", "SfProps.C04W64", "SfProps.C04Aiff", "SfProps.C04Htk", "SfProps.C04Wve", "SfProps.C04Mpc2k", "SfProps.C04Pvf", "SfProps.C04Mat4"], stride=2 if q else 1, l1_scripts=250 if q else 2500)
+    run_common(ctx, "C11", modules_for("C11"), stride=2 if q else 1, l1_scripts=250 if q else 2500)
